@@ -215,6 +215,8 @@ func evalCase(e func() *env, c Case) Res {
 		return evalSigning(e(), c)
 	case "seed":
 		return evalSeed(e(), c)
+	case "sighist":
+		return evalSigHist(e(), c)
 	case "params":
 		return evalParams(e(), c)
 	case "tssparams":
@@ -245,13 +247,13 @@ func run(r *engine.Run) {
 			"MsgRequestData through the router: 3 and 4 validators, all 4^n state vectors, ask 1..n, 2 seeds, request ids {1,2} and {42,43}. " +
 			"tss GetRandomMembers: groups of 1..5 members, every state vector {available, inactive, queue-used-up, inactive+no-queue}^n, threshold 1..n, 3 seeds x 3 signing ids x 2 attempts (+1 other chain id). " +
 			"RequestSigning + retry (InitiateNewSigningRound): 1..4 members x {1 nonce, 2 nonces, inactive, queue-used-up}^n, threshold 1..n, 2 seeds, signing ids {1, 2^64-1}. " +
-			"rolling seed BeginBlocker: 3 seeds x (empty hash + 256 first bytes x 3 hash lengths). parameter corners: {sampling_try_count, max_ask_count, per_validator_request_gas} x {0,1,2,2^64-1} via MsgUpdateParams, then 4 validators x {E,I,U,X}^4 x ask 1..4 x 2 (seed,id) through GetRandomValidators and MsgRequestData; tss {max_signing_attempt, signing_period, max_de_size} x {0,1,2,2^64-1}, then RequestSigning + retry on 1..3 members"
+			"rolling seed BeginBlocker: 3 seeds x (empty hash + 256 first bytes x 3 hash lengths). parameter corners: {sampling_try_count, max_ask_count, per_validator_request_gas} x {0,1,2,2^64-1} via MsgUpdateParams, then 4 validators x {E,I,U,X}^4 x ask 1..4 x 2 (seed,id) through GetRandomValidators and MsgRequestData; tss {max_signing_attempt, signing_period, max_de_size} x {0,1,2,2^64-1}, then RequestSigning + retry on 1..3 members. signing histories: 3 members, nonce queues {0,1,2,6}^3, threshold {1,2,3}, 2 or 3 signings requested in one block, all expiring together and retried by the real HandleSigningEndBlock in one end block, 2 seeds; requests and retries replayed sequentially by the reference"
 	} else {
 		r.Bound = "THOROUGH. pure samplers: every ordered weight vector over {1,2,3,10^6,2^62,2^63} of length 1..6 and over {1,2,3,7,10^6,2^62,2^63-1,2^63} of length 1..5, " +
 			"18 hand-chosen vectors at/around a total of 2^64; cnt 1..n, tries {1,2,3,10}, 3 seeds x 3 ids. DRBG stream as quick. " +
 			"oracle keeper: 4 validators {E,I,U,X}^4 x {1,3,10^6,1.5*10^6,2^62,2^63}^4, tries {1,3,10} x 2 seeds x 2 ids (+ second chain id); 5 validators {E,I,U,X}^5 x {3,10^6,2^63}^5, tries {1,3}; " +
 			"6 validators {E,I}^6 x {3,10^6,1.5*10^6,2^62}^6; near-2^64 as quick. MsgRequestData: additionally 4 equal-stake validators and 5 validators {E,I,U}^5. " +
-			"tss GetRandomMembers: groups of 1..6 members; RequestSigning + retry: 1..5 members. rolling seed as quick. parameter corners: {sampling_try_count, max_ask_count, per_validator_request_gas} x {0,1,2,2^64-1} via MsgUpdateParams, then 4 validators x {E,I,U,X}^4 x ask 1..4 x 2 (seed,id) through GetRandomValidators and MsgRequestData; tss {max_signing_attempt, signing_period, max_de_size} x {0,1,2,2^64-1}, then RequestSigning + retry on 1..3 members"
+			"tss GetRandomMembers: groups of 1..6 members; RequestSigning + retry: 1..5 members. rolling seed as quick. parameter corners: {sampling_try_count, max_ask_count, per_validator_request_gas} x {0,1,2,2^64-1} via MsgUpdateParams, then 4 validators x {E,I,U,X}^4 x ask 1..4 x 2 (seed,id) through GetRandomValidators and MsgRequestData; tss {max_signing_attempt, signing_period, max_de_size} x {0,1,2,2^64-1}, then RequestSigning + retry on 1..3 members. signing histories: 3 members, nonce queues {0,1,2,6}^3, threshold {1,2,3}, 2 or 3 signings requested in one block, all expiring together and retried by the real HandleSigningEndBlock in one end block, 2 seeds; requests and retries replayed sequentially by the reference"
 	}
 	r.Rule = "one evaluation = one call of a real function/handler on one enumerated tuple compared with the reference; tuples are enumerated by " +
 		"odometer over the stated alphabets (no sampling); an evaluation is non-trivial when the real code returned a committee; " +
@@ -274,6 +276,7 @@ func run(r *engine.Run) {
 		"members:ok", "members:too-few",
 		"signing:attempt1:ok", "signing:attempt2:ok", "signing:attempt1:too-few", "signing:attempt2:too-few",
 		"seed:shifted", "seed:unchanged-empty-hash",
+		"sighist:request:ok", "sighist:retry:ok", "sighist:retry:too-few", "sighist:two-or-more-retries-in-one-endblock", "sighist:retry-and-fall-in-one-endblock",
 		"params[sampling_try_count=1]:accepted", "params[sampling_try_count=1]:vals:ok", "params[sampling_try_count=2]:valtx:ok",
 		"params[max_ask_count=2]:accepted", "tssparams[signing_period=1]:accepted", "tssparams[signing_period=1]:signing:attempt1:ok",
 	}
@@ -296,6 +299,7 @@ func run(r *engine.Run) {
 	d.runSeed()
 	d.runMembers(nMem)
 	d.runSigning(nSign)
+	d.runSigHist()
 	d.runValTx(quick)
 	d.runHist()
 	d.runValsNear()
